@@ -387,7 +387,18 @@ def _order_chain(cx: Cx, ob: Ob, fn, s, seq, line) -> None:
             ob.violate(fn.qualname, where(fn, line), f"the sorted sequence is passed through {bad[0]}(...) before numbering", detail="order-destroyed")
         srt = chain[names.index("sorted")][1]
         kw = dict(srt[3])
-        if ("reverse" in kw and not is_const(kw["reverse"], False)) or "key" in kw:
+        key_ok = "key" not in kw
+        if not key_ok:
+            from .c13 import _projection
+
+            proj = _projection(cx, kw["key"])
+            inner = srt[2][0] if srt[2] else None
+            # items of a mapping have distinct keys: ordering by the key alone is the plain order of the items
+            if proj in ("id", ("idx", 0)) and op(inner) == "call" and callee_name(inner) == "items":
+                key_ok = True
+            elif proj == "id":
+                key_ok = True
+        if ("reverse" in kw and not is_const(kw["reverse"], False)) or not key_ok:
             ob.violate(fn.qualname, where(fn, line), f"URI prefixes are ordered with `{show(srt)[:60]}`, not plain sorted order", detail="sort-key")
     if not (op(x) == "call" and x[1] == ("func", f"{D}._get_uri_prefix_to_luids")):
         ob.undecide(f"the numbered sequence derives from `{show(x)[:50]}`")
